@@ -10,6 +10,7 @@ package main
 import (
 	"fmt"
 	"go/types"
+	"os"
 
 	"golang.org/x/tools/go/ssa"
 )
@@ -47,6 +48,7 @@ type unaryCell struct {
 	followed bool
 	isErr    bool
 	applies  []*ssa.Function // element functions handed to inputs[0].Apply
+	binds    [][]pval        // for closures: the values of their free variables
 	onInput  bool            // every Apply had the input tensor as its receiver
 	outIsRes bool            // the single output is the result of the Apply
 }
@@ -83,6 +85,19 @@ func (c *Ctx) unaryDtypeCell(oi *opInfo, dt pval, cov *pcover) unaryCell {
 				f = args[0].fn
 			}
 			cell.applies = append(cell.applies, f)
+			var bd []pval
+			if f != nil && len(f.FreeVars) > 0 {
+				for _, bv := range h.lists[args[0].i] {
+					// free variables are the addresses of the captured variables: the values behind them
+					if bv.k == pElemAddr {
+						if l := h.lists[bv.i]; l != nil && bv.j < int64(len(l)) {
+							bv = l[bv.j]
+						}
+					}
+					bd = append(bd, bv)
+				}
+			}
+			cell.binds = append(cell.binds, bd)
 			nextRes++
 			results = append(results, nextRes)
 			return []pval{{k: pAbs, i: nextRes, s: "tensor"}, {k: pNil}}, true
@@ -117,6 +132,9 @@ func (c *Ctx) unaryDtypeTable(oi *opInfo, name string) (known bool, bad string) 
 			return false, ""
 		}
 		cell := c.unaryDtypeCell(oi, dt, cov)
+		if os.Getenv("UNARYDEBUG") != "" {
+			fmt.Printf("UNARYDEBUG %s %s followed=%v err=%v applies=%v binds=%v\n", name, dn, cell.followed, cell.isErr, cell.applies, cell.binds)
+		}
 		if !cell.followed {
 			return false, ""
 		}
@@ -132,6 +150,21 @@ func (c *Ctx) unaryDtypeTable(oi *opInfo, name string) (known bool, bad string) 
 			return true, fmt.Sprintf("the result of the element-wise application is not the operator's single output for a %s input", T)
 		}
 		fn := cell.applies[0]
+		if fn != nil && len(fn.FreeVars) > 0 {
+			// an adapter closure func(x T) T { return T(f(float64(x))) } around a function of package math
+			got, ok := adapterOf(fn, cell.binds[0])
+			if !ok {
+				return false, ""
+			}
+			cov.mark(fn, fn.Blocks[0]) // read in full by adapterOf
+			if pt := types.TypeString(fn.Signature.Params().At(0).Type(), nil); pt != T {
+				return true, fmt.Sprintf("dtype %s applies an element function on %s: elements are read as the wrong type (the closure is never called or panics inside gorgonia)", T, pt)
+			}
+			if got != "math."+mathUnary[name] {
+				return true, fmt.Sprintf("%s elements are computed with %s, expected math.%s(x)", T, got, mathUnary[name])
+			}
+			continue
+		}
 		if fn == nil || len(fn.TypeArgs()) != 1 {
 			return false, ""
 		}
@@ -157,4 +190,42 @@ func (c *Ctx) unaryDtypeTable(oi *opInfo, name string) (known bool, bad string) 
 	}
 	c.counts["R7:unary:dtype-table-cells"] += 2
 	return true, ""
+}
+
+// adapterOf recognises func(x T) T { return T(f(float64(x))) } with f a free variable bound to a function, and
+// names that function ("math.Sinh").
+func adapterOf(fn *ssa.Function, binds []pval) (string, bool) {
+	rets := returnsOf(fn)
+	if len(rets) != 1 || len(rets[0].Results) != 1 || len(fn.Params) != 1 || len(fn.Blocks) != 1 {
+		return "", false
+	}
+	v := rets[0].Results[0]
+	if cv, ok := v.(*ssa.Convert); ok {
+		v = cv.X
+	}
+	call, ok := v.(*ssa.Call)
+	if !ok || len(call.Common().Args) != 1 {
+		return "", false
+	}
+	a := call.Common().Args[0]
+	if cv, ok := a.(*ssa.Convert); ok {
+		a = cv.X
+	}
+	if a != ssa.Value(fn.Params[0]) {
+		return "", false
+	}
+	cv := call.Common().Value
+	if ld, ok := cv.(*ssa.UnOp); ok {
+		cv = ld.X // free variables are addresses
+	}
+	fv, ok := cv.(*ssa.FreeVar)
+	if !ok {
+		return "", false
+	}
+	for i, f := range fn.FreeVars {
+		if f == fv && i < len(binds) && binds[i].k == pFunc && binds[i].fn != nil {
+			return fnPkgPath(binds[i].fn) + "." + binds[i].fn.Name(), true
+		}
+	}
+	return "", false
 }
